@@ -129,6 +129,15 @@ Emit == (Len(hist) > 0 /\ Len(hist) % EmitEvery = 0) =>
           PrintT(<<"SCHED", ToJson([cfg |-> st.cfg, cmds |-> hist, viol |-> st.viol])>>)
 NoViolation == st.viol = {}
 
+(* ------------------------------------------------------------------ *)
+(* Cover mode (breadth-first model checking instead of simulation).  The history stays in the state but is hidden from
+   the fingerprint: VIEW CoverView identifies a node by the abstract state and the LAST command, so TLC visits every
+   distinct pair (command, resulting state) of the bounded model once, and the hidden history of the first visit is a
+   shortest schedule that reaches it.  EmitNode prints that schedule: one implementation test per node of the state
+   graph (tools/tlc_sched.py keeps the maximal ones -- the leaves of the breadth-first spanning tree).            *)
+CoverView == <<[st EXCEPT !.obs = NoObs], IF hist = <<>> THEN <<>> ELSE <<hist[Len(hist)]>> >>
+EmitNode == hist # <<>> => PrintT(<<"SCHED", ToJson([cfg |-> st.cfg, cmds |-> hist, viol |-> st.viol])>>)
+
 MkCfg(rwnd, thr, ac, dg, bc, rt) ==
   [rwnd |-> rwnd, thr |-> thr, acceptCap |-> ac, dgCap |-> dg, bindCap |-> bc, retries |-> rt, kaI |-> 0, kaT |-> 0]
 SchedCfgs == {MkCfg(r, t, a, 1, 0, rt) : r \in 1..2, t \in 1..3, a \in 1..2, rt \in 1..2}
@@ -140,5 +149,7 @@ AdvSetS ==
 SchedCfgsA == {MkCfg(r, t, a, 1, bc, 2) : r \in 1..2, t \in 1..2, a \in 1..2, bc \in 0..1}
 SchedCfgsD == {MkCfg(r, 1, 1, dg, 0, 1) : r \in 1..2, dg \in 1..4}
 SchedCfgsK == {[MkCfg(r, 1, 1, 1, 0, 1) EXCEPT !.kaI = i, !.kaT = t] : r \in 1..2, i \in 1..2, t \in {0, 1, 2, 3, 4}}
+OneCfgC == {MkCfg(1, 1, 1, 1, 0, 1)}
+TwoCfgC == {MkCfg(1, 1, 1, 1, 0, 1), MkCfg(2, 2, 1, 1, 0, 2)}
 SchedCfgsB == {MkCfg(r, t, 1, 1, bc, 2) : r \in 1..2, t \in 1..2, bc \in 0..2}
 =============================================================================
